@@ -721,6 +721,8 @@ def cell_cases(rng):
         for wi, (wn, wf) in enumerate(ext):
             if (ni + wi) % (4 if FULL[0] else 16) != 0:
                 continue   # thorough tier: a quarter of the product; quick tier: every wrapper meets every node *kind* (≥ 9 nodes per kind), not every node
+            if "mag" in tag and wn.strip("*+-").replace("e", "").replace(".", "").replace("-", "").replace("+", "").isdigit():
+                continue   # tiny × tiny underflows in doubles but not in the model's exact rationals: no structural comparison
             try:
                 cases.append((f"{tag}|own|{wn}", [wf(node)], list(own), U))
             except Exception as ex:  # noqa: BLE001
@@ -928,7 +930,14 @@ def well_conditioned(es_i, V, xs, want_row):
     try:
         pert = {v.name: float(a) * (1 + 1e-9) + 1e-12 for v, a in zip(V, xs)}
         row2 = oracle_rows([es_i], V, [pert[v.name] for v in V])[0]
-        return row2 is not None and all(oracle.close(a, b, rtol=1e-4, atol=1e-6) for a, b in zip(want_row, row2))
+        if row2 is None or not all(oracle.close(a, b, rtol=1e-4, atol=1e-9) for a, b in zip(want_row, row2)):
+            return False
+        # second, independent reference: Richardson central differences of `evaluate`.  Where the two references
+        # disagree (a tiny derivative of a huge value, 1 − tanh² near saturation, …) double precision itself is the
+        # limit and the point is no witness
+        point = {v.name: float(a) for v, a in zip(V, xs)}
+        row3 = [fd_grad(es_i, point, v.name) for v in V]
+        return all(oracle.close(a, b, rtol=1e-3, atol=1e-8) for a, b in zip(want_row, row3))
     except Exception:  # noqa: BLE001
         return False
 
